@@ -1,6 +1,6 @@
 (* C01vm — proof infrastructure: machine reachability and one lemma per opcode. *)
 From Coq Require Import List NArith ZArith Bool Arith Lia.
-From Verif Require Import c01vm2.Syntax c01vm2.Code c01vm2.VM c01vm2.Compile.
+From Verif Require Import c01vm2.Syntax c01vm2.Code c01vm2.VM c01vm2.Den c01vm2.Compile.
 Import ListNotations.
 
 Lemma update_some : forall {A} (l : list A) k a, k < length l -> exists l', update l k a = Some l'.
@@ -17,6 +17,17 @@ Proof.
   - destruct (update l k x) eqn:E; [|discriminate]. inversion H; subst.
     destruct (IHl _ _ _ E) as (L & Nk & O). repeat split; simpl; auto.
     intros [|j] Hj; [reflexivity|]. apply O. congruence.
+Qed.
+
+(* the stack built by the entries of an object already evaluated (the last value on top) *)
+Definition stk_of (acc : list (jv * jv)) : list sv := flat_map (fun kv => [SV (snd kv); SV (fst kv)]) (rev acc).
+Lemma stk_of_snoc : forall acc k v, stk_of (acc ++ [(k, v)]) = SV v :: SV k :: stk_of acc.
+Proof. intros. unfold stk_of. rewrite rev_app_distr. reflexivity. Qed.
+Lemma take_pairs_stk : forall a r b, take_pairs (length a) (stk_of a ++ r) b = Some (a ++ b, r).
+Proof.
+  induction a as [|[k v] a IH] using rev_ind; intros r b; [reflexivity|].
+  rewrite stk_of_snoc, app_length. simpl length. rewrite Nat.add_1_r. cbn [take_pairs app].
+  rewrite IH, <- app_assoc. reflexivity.
 Qed.
 
 Section Mach.
@@ -120,6 +131,30 @@ Lemma st_call2_ok : forall pc op x a b w st fk vs l o g, at_ pc (Icall (NF2 op))
 Proof. intros. stp H. rewrite H0. reflexivity. Qed.
 Lemma st_call2_err : forall pc op x a b e st fk vs l o g, at_ pc (Icall (NF2 op)) -> n_fn2 nt op x a b = inr e ->
   step nt code (N pc (SV x :: SV a :: SV b :: st) fk vs l o g) = Next (B (Some (VE (err_of e))) fk vs l g).
+Proof. intros. stp H. rewrite H0. reflexivity. Qed.
+Lemma st_indexarray_ok : forall pc i v w st fk vs l o g, at_ pc (Iindexarray i) -> index_arr nt v i = inl w ->
+  step nt code (N pc (SV v :: st) fk vs l o g) = Next (N (S pc) (SV w :: st) fk vs l o g).
+Proof. intros. stp H. unfold index_arr in H0. destruct v; try discriminate; rewrite H0; reflexivity. Qed.
+Lemma st_indexarray_err : forall pc i v e st fk vs l o g, at_ pc (Iindexarray i) -> index_arr nt v i = inr e ->
+  step nt code (N pc (SV v :: st) fk vs l o g) = Next (B (Some (VE (err_of e))) fk vs l g).
+Proof. intros. stp H. unfold index_arr in H0. destruct v; try (inversion H0; subst; reflexivity); rewrite H0; reflexivity. Qed.
+Lemma st_object_ok : forall pc n ps w st0 st fk vs l o g, at_ pc (Iobject n) -> take_pairs n st0 [] = Some (ps, st) -> mk_obj ps = inl w ->
+  step nt code (N pc st0 fk vs l o g) = Next (N (S pc) (SV w :: st) fk vs l o g).
+Proof. intros. stp H. rewrite H0, H1. reflexivity. Qed.
+Lemma st_object_err : forall pc n ps e st0 st fk vs l o g, at_ pc (Iobject n) -> take_pairs n st0 [] = Some (ps, st) -> mk_obj ps = inr e ->
+  step nt code (N pc st0 fk vs l o g) = Next (B (Some (VE (err_of e))) fk vs l g).
+Proof. intros. stp H. rewrite H0, H1. reflexivity. Qed.
+Lemma st_index2_ok : forall pc x a b w st fk vs l o g, at_ pc (Icall NIndex2) -> n_index nt a b = inl w ->
+  step nt code (N pc (SV x :: SV a :: SV b :: st) fk vs l o g) = Next (N (S pc) (SV w :: st) fk vs l o g).
+Proof. intros. stp H. rewrite H0. reflexivity. Qed.
+Lemma st_index2_err : forall pc x a b e st fk vs l o g, at_ pc (Icall NIndex2) -> n_index nt a b = inr e ->
+  step nt code (N pc (SV x :: SV a :: SV b :: st) fk vs l o g) = Next (B (Some (VE (err_of e))) fk vs l g).
+Proof. intros. stp H. rewrite H0. reflexivity. Qed.
+Lemma st_slice3_ok : forall pc x a b c w st fk vs l o g, at_ pc (Icall NSlice3) -> n_slice nt a b c = inl w ->
+  step nt code (N pc (SV x :: SV a :: SV b :: SV c :: st) fk vs l o g) = Next (N (S pc) (SV w :: st) fk vs l o g).
+Proof. intros. stp H. rewrite H0. reflexivity. Qed.
+Lemma st_slice3_err : forall pc x a b c e st fk vs l o g, at_ pc (Icall NSlice3) -> n_slice nt a b c = inr e ->
+  step nt code (N pc (SV x :: SV a :: SV b :: SV c :: st) fk vs l o g) = Next (B (Some (VE (err_of e))) fk vs l g).
 Proof. intros. stp H. rewrite H0. reflexivity. Qed.
 Lemma st_break : forall pc n st fk vs l o g, at_ pc (Icall NBreak) ->
   step nt code (N pc (SLbl n :: st) fk vs l o g) = Next (B (Some (VE (EB n))) fk vs l g).
